@@ -295,6 +295,12 @@ fn g4_unrescaled(log: &LogRec) -> bool {
     }
 }
 
+/// G4 for the jacobian: the implementation forms u^(-D/2) and v^(-dod) separately; each of the two powers is an intermediate and
+/// must lie in [1e-278, 1e278] (with large momenta in small units, v ~ 1e31 and dod ~ 10 give v^(-dod) ~ 1e-323, a subnormal)
+pub fn jacobian_powers_in_range(d2: f64, dod: f64, u: f64, v: f64) -> bool {
+    u > 0.0 && v > 0.0 && (d2 * u.ln()).abs() <= 640.0 && (dod * v.ln()).abs() <= 640.0
+}
+
 fn finite_pos(v: &[f64]) -> bool {
     v.iter().all(|x| x.is_finite() && *x > 0.0)
 }
@@ -448,6 +454,10 @@ pub fn c11_point(case: &Case, r: &Routed, po: &PointObs, _nd: usize, acc: &mut A
         viol(acc, "C11", "u_trop=v_trop=1", case, r, po, &st, format!("returned u_trop = {:e}, v_trop = {:e}", s.u_trop, s.v_trop));
     }
     let d2 = case.g.dim as f64 / 2.0;
+    if !jacobian_powers_in_range(d2, case.dod, s.u, s.v) {
+        acc.inc("excluded_G4_power_intermediate");
+        return;
+    }
     // from the returned u, v and the stored normalisation
     if let Some(cf) = r.cached_factor() {
         if in_range(&[s.u, s.v, s.jacobian]) && s.u > 0.0 && s.v > 0.0 {
@@ -915,7 +925,7 @@ pub fn c02_point(case: &Case, r: &Routed, po: &PointObs, _nd: usize, acc: &mut A
         acc.inc("excluded_ill_conditioned");
         return;
     }
-    if !in_range(&[s.jacobian, s.u, s.v]) {
+    if !in_range(&[s.jacobian, s.u, s.v]) || !jacobian_powers_in_range(d2, case.dod, s.u, s.v) {
         acc.inc("excluded_G4");
         return;
     }
